@@ -57,4 +57,6 @@ func gap(ns int64) TimeSpec { return TimeSpec{GapNS: ns} }
 
 func ref(kind string, off int64, of ...string) TimeSpec { return TimeSpec{Ref: kind, Of: of, OffNS: off} }
 
+func secDurNS(s int) int64 { return int64(s) * sec }
+
 var edgeOffsets = []int64{-sec, -1, 0, 1, sec, -ms, ms, -2 * sec, 30 * sec}
